@@ -97,6 +97,14 @@ def make_stock(rng, kind=None, dtype=None, cost=None, dt=None):
     return s
 
 
+def _steps_as_time(rng, k, dt):
+    """A time of k steps written the ways users write it: k * dt, or k / n when dt = 1 / n."""
+    n = round(1 / dt)
+    if abs(1 / dt - n) < 1e-9 and rng.random() < 0.6:
+        return k / n
+    return k * dt
+
+
 def make_derivative(rng, stock, kind=None, maturity=None, n_steps=None, clauses=None):
     kind = kind or pick(rng, DERIVS)
     if maturity is None:
@@ -114,7 +122,9 @@ def make_derivative(rng, stock, kind=None, maturity=None, n_steps=None, clauses=
     elif kind == "european_binary":
         d = EuropeanBinaryOption(stock, call=call, strike=strike, maturity=maturity)
     elif kind == "forward_start":
-        d = EuropeanForwardStartOption(stock, strike=strike, maturity=maturity, start=maturity * float(pick(rng, [0.0, 0.3, 0.5])))
+        d = EuropeanForwardStartOption(stock, strike=strike, maturity=maturity, start=(maturity * float(pick(rng, [0.0, 0.3, 0.5])) if rng.random() < 0.6
+                                              else _steps_as_time(rng, int(pick(rng, [k_ for k_ in (1, 2, 3, 5, 9, 11, 13, 15, 18, 19) if k_ * stock.dt <= maturity] or [0])),
+                                                                  stock.dt)))
     elif kind == "varswap":
         d = VarianceSwap(stock, strike=float(rng.uniform(0.01, 0.09)), maturity=maturity)
     else:
